@@ -1125,6 +1125,13 @@ class Folder:
         if isinstance(node, ast.Call) and isinstance(node.func, ast.Attribute) and not (call_name(node) or "").startswith(("torch.", "math.", "np.", "numpy.", "F.", "cmath.", "itertools.", "chain.")):
             # method form on a foldable receiver: x.abs(), x.sum(dim=..), x.min(dim=..), x.to(..), x.float()
             m = node.func.attr
+            if m == "count" and len(node.args) == 1 and not node.keywords and isinstance(node.func.value, ast.Call) and isinstance(node.func.value.func, ast.Name) and node.func.value.func.id == "bin" and len(node.func.value.args) == 1:
+                # bin(v).count("1"): the number of set bits of an integer
+                v = self.fold(node.func.value.args[0])
+                sub_ = self.fold(node.args[0])
+                if isinstance(v, int) and not isinstance(v, bool) and isinstance(sub_, str):
+                    return bin(v).count(sub_)
+                raise Unfoldable("bin(...).count of a non-integer")
             if m == "bit_length" and not node.args:
                 v = self.fold(node.func.value)
                 if isinstance(v, int) and not isinstance(v, bool):
@@ -1456,6 +1463,9 @@ class Folder:
             ch_ = attr_chain(node.args[0]) if isinstance(node.args[0], (ast.Name, ast.Attribute)) else None
             if ch_ is not None and f"{ch_}.{node.args[1].value}" in self.attrs:
                 return True
+            if ch_ == "self" and "self" not in self.names and node.args[1].value.startswith("_") and not node.args[1].value.startswith("__") and any(k_.startswith("self.") for k_ in self.attrs):
+                # the object is described by the attribute table: a private attribute that is not in it is a cache not filled yet
+                return False
             obj_ = self.fold(node.args[0])
             if getattr(type(obj_), "_kv_eval_obj", False):
                 return hasattr(obj_, node.args[1].value)
